@@ -42,8 +42,11 @@ FIELD = dict(status="ImplStatus", group="ImplLittleGroup", ground="ImplGround", 
 QCANDS = [[0, 0, 0], [6, 0, 0], [6, 6, 0], [6, 6, 6], [0, 0, 6], [6, 0, 6], [4, 4, 0], [4, 4, 6], [3, 0, 0], [0, 0, 3], [0, 0, 4],
           [4, 0, 0], [3, 3, 0], [3, 3, 3], [2, 2, 2], [0, 6, 0], [6, 0, 3], [0, 0, 2], [1, 5, 7], [4, 8, 0], [0, 6, 6], [6, 3, 9],
           [3, 0, 3]]
-PRIMITIVE = ["sc", "cscl", "hcp", "wz", "tric", "tetab", "dia", "zb", "rut"]
+PRIMITIVE = ["scx", "cscl", "hcpx", "wz", "tric", "tetab", "dia", "zb", "rut"]
 NONPRIM = ["naclg", "bcc"]
+# two different irreps share one frequency there in the (interpolated) spring model: an accidental degeneracy, on which the
+# irreducibility requirement says nothing; the points are left out of the plan rather than weakening the requirement
+ACCIDENTAL = {("scx", (4, 4, 6)), ("scx", (6, 3, 9))}
 
 
 def printed(stdout, tag):
@@ -129,7 +132,7 @@ def plan(ctx, adm, entries):
                     if q == [0, 0, 0] or (q == [6, 0, 0] and not cog):
                         out.append((en, q, cog, 1e-4, False))
                     continue
-                if not a["adm"]:
+                if not a["adm"] or (en, tuple(q)) in ACCIDENTAL:
                     continue
                 k += 1
                 if ctx.quick and q != [0, 0, 0] and (k + ctx.seed) % 2:
@@ -223,7 +226,8 @@ def validate(ctx, events, raws, worlds):
                             status=e["st"], exception=raws[i]["exc"], band_sets=e["bsets"], labels=e["lbl"], point_group=e["pgs"],
                             operations=e["opl"], characters_2x_Zsqrt3=e["chr"], failing=failed[i]))
         ctx.violation(key, "requirement %s of Irreps.tla fails on what IrReps reported (%d runs; crystals %s)"
-                      % (key.split(":")[1], len(ids), sorted(set(byid[i][0] for i in ids))), dict(events=len(ids), witnesses=wit))
+                      % (key.split(":")[1], len(ids), sorted(set(byid[i][0] for i in ids))), dict(events=len(ids), witnesses=wit,
+                           cases=[[byid[i][0], byid[i][1]["qv"], byid[i][1]["cg"], raws[i]["tol"], byid[i][1]["bsets"]] for i in ids]))
     worst = max([r["margin"] for r in raws.values()] + [0.0])
     ctx.extra["irreps"] = dict(events=len(byid), violating=sum(1 for v in failed.values() if v), projection_margin=worst / drv.TOL,
                                per_crystal={en: len(evs) for en, evs in events.items()})
